@@ -278,6 +278,7 @@ class Bench:
         if fn is None:
             raise HarnessError(f"unknown op {op}")
         nv0 = len(self.violations)
+        self.world.cur_idx = self.idx
         rec = fn(ev) or {}
         self.check_guards(op)
         # C04: every live object unchanged, after every event, successful or not
